@@ -113,7 +113,7 @@ def run_cases(vh, scratch, cases, workers=12, subcmd="wrap"):
     return res, crashes
 
 
-def blank_context_cases(vh, scratch, seed, quick=True):
+def blank_context_cases(vh, scratch, seed, quick=True, want="c07"):
     """C07 on Blank.SetSource: the Blank histories of Wrap.tla in which a blocking path's return value is put to the test (the
     monitor is gone, a value is rejected by Verify, the same source object is set again), executed with the driver's watchdog.
     Returns the mismatches that breach C07: not back after its context ended, nil before the value was visible, nil for a
@@ -132,9 +132,11 @@ def blank_context_cases(vh, scratch, seed, quick=True):
     results, crashes = run_cases(vh, scratch, sel)
     byid = {c["id"]: c for c in sel}
     out = []
+    for cid, first, stderr in crashes:
+        out.append(("the process died: " + first, byid.get(cid)))
     for r in results:
         for m in r.get("mismatches") or []:
-            if m.get("c07"):
+            if (want == "c07" and m.get("c07")) or (want == "panic" and m.get("kind") == "panic"):
                 out.append((m["detail"], byid.get(r["id"])))
     return out, len(sel), res.distinct
 
